@@ -1,5 +1,7 @@
 import XsgModel.Driver.Props
 import XsgModel.Model.Ops
+import XsgModel.Model.Cli
+import XsgModel.Model.De
 /-!
 # Driver: list cases (C15), operation sequences (C16), pairs of histories (C06, C11), character and
 `convert_string` tables
@@ -288,5 +290,125 @@ def handleV (ts : List String) : Option Verdict := do
   else if removeNamespace n != rn then .corr s!"remove_namespace {showName n}"
   else if isKeyword n != kw then .corr s!"is_keyword {showName n}"
   else .ok)
+
+/-! ### C12: `X <id> C12 <input> <args> <out> OBS <exit> <stdout> <stderrNonEmpty> <fileAfter>` -/
+def pOptName : P (Option Name) := fun ts => match ts with
+  | "~" :: ts => some (none, ts)
+  | _ => (pName ts).map fun (n, ts) => (some n, ts)
+
+def pInput : P InputStatus := fun ts => match ts with
+  | "missing" :: ts => some (.missing, ts)
+  | "unreadable" :: ts => some (.unreadable, ts)
+  | "notutf8" :: ts => some (.notUtf8, ts)
+  | "content" :: ts => (pEvents ts).map fun (e, ts) => (.content e, ts)
+  | _ => none
+
+def pCliArgs : P CliArgs := fun ts => do
+  let (p, ts) ← (match ts with
+    | "Q" :: ts => some (ParserArg.quickXmlDe, ts)
+    | "S" :: ts => some (ParserArg.serdeXmlRs, ts)
+    | _ => none)
+  let (d, ts) ← pOptName ts
+  let (s, ts) ← (match ts with
+    | "U" :: ts => some (SortBy.unsorted, ts)
+    | "N" :: ts => some (SortBy.xmlName, ts)
+    | _ => none)
+  pure (⟨p, d, s⟩, ts)
+
+def pOutTarget : P OutTarget := fun ts => match ts with
+  | "stdout" :: ts => some (.stdout, ts)
+  | "file" :: ts => do
+    let (c, ts) ← pBool ts
+    let (b, ts) ← pOptName ts
+    pure (.file c b, ts)
+  | _ => none
+
+def handleX (ts : List String) : Option Verdict := do
+  let (input, ts) ← pInput ts
+  let (args, ts) ← pCliArgs ts
+  let (out, ts) ← pOutTarget ts
+  let (_, ts) ← expect "OBS" ts
+  let (exit, ts) ← pNat ts
+  let (stdout, ts) ← pName ts
+  let (errNonEmpty, ts) ← pBool ts
+  let (fileAfter, ts) ← pOptName ts
+  let (_, ts) ← expect "LIB" ts
+  let (lib, ts) ← pOptName ts
+  if !ts.isEmpty then none else
+  let obs : CliOutcome := ⟨exit, stdout, errNonEmpty, fileAfter⟩
+  let m := runCli args input out
+  -- the property, stated on the observation: success prints header + rendering, failure is clean
+  let inputFault := match input with
+    | .content evs => (match intoStruct evs with | .ok _ => false | .error _ => true)
+    | _ => true
+  let hdr := cliHeader
+  some (firstBad [
+    fun _ =>
+      if inputFault then
+        if obs.exit != 1 then .prop s!"input at fault but exit status {obs.exit}"
+        else if !obs.stdout.isEmpty then .prop "input at fault but something was printed on stdout"
+        else if !obs.stderrNonEmpty then .prop "input at fault but no diagnostic on stderr"
+        else if obs.fileAfter != outBefore out then .prop "input at fault but the output file was created or modified"
+        else .ok
+      else match out with
+        | .file false _ =>
+          if obs.exit != 1 then .prop s!"output cannot be created but exit status {obs.exit}"
+          else if !obs.stdout.isEmpty then .prop "output cannot be created but something was printed on stdout"
+          else if !obs.stderrNonEmpty then .prop "output cannot be created but no diagnostic on stderr"
+          else .ok
+        | .file true _ =>
+          if obs.exit != 0 then .prop s!"valid input but exit status {obs.exit}"
+          else if !obs.stdout.isEmpty then .prop "output file named but stdout not empty"
+          else (match obs.fileAfter with
+            | some f => (match stripPrefix? hdr f, lib with
+                | some body, some l => if body == l then .ok else .prop "output file is not header + the library's rendering for these options"
+                | some _, none => .ok
+                | none, _ => .prop "output file does not start with the header line and an empty line")
+            | none => .prop "output file missing")
+        | .stdout =>
+          if obs.exit != 0 then .prop s!"valid input but exit status {obs.exit}"
+          else (match stripPrefix? hdr obs.stdout, lib with
+            | some body, some l => if body == l ++ ['\n'] then .ok else .prop "stdout is not header + the library's rendering for these options + newline"
+            | some body, none => if body.getLast? == some '\n' then .ok else .prop "stdout does not end with a newline"
+            | none, _ => .prop "stdout does not start with the header line and an empty line"),
+    fun _ =>
+      if m == obs then .ok
+      else .corr s!"cli model=(exit {m.exit}, stdout {repr (showName m.stdout)}, stderr {m.stderrNonEmpty}, file {repr (m.fileAfter.map showName)}) impl=(exit {obs.exit}, stdout {repr (showName obs.stdout)}, stderr {obs.stderrNonEmpty}, file {repr (obs.fileAfter.map showName)})" ])
+
+/-! ### C02 / C13: `D <id> <prop> PROG <quick-xml rendering> K<k> <doc>* RES <compiled> (<ok> <captured>)*` -/
+def handleD (prop : String) (ts : List String) : Option Verdict := do
+  let (_, ts) ← expect "PROG" ts
+  let (txt, ts) ← pName ts
+  let (k, ts) ← pCount 'K' ts
+  let (docs, ts) ← pRep (pOptDoc fuelMax) k ts
+  let (_, ts) ← expect "RES" ts
+  let (compiled, ts) ← pBool ts
+  let (results, ts) ← pRep (fun ts => do let (a, ts) ← pBool ts; let (b, ts) ← pBool ts; pure ((a, b), ts)) k ts
+  if !ts.isEmpty then none else
+  let doms := docs.filterMap (·.map (·.root))
+  if doms.length != k then some (.gen "no-dom") else
+  let spec := specOfDocs doms
+  some (
+    if !wfDocs doms then .gen "not-wellformed"
+    else if !doms.all (fun d => d.allNames dataName) then .gen "names-outside-domain"
+    else if !spec.noPrefixClash then .gen "names-clash-after-prefix-removal"
+    else if !plainNames spec.bind then .gen "reserved-binding-names"
+    else if !doms.all Node.dataOriented then .gen "mixed-content"
+    else if prop == "C13" && !doms.all Node.sxrScope then .gen "outside-serde-xml-rs-scope"
+    else match readProgram txt with
+    | none => .prop "rendered text is not a sequence of struct items"
+    | some prog =>
+      let mCompiles := decide (Compiles prog)
+      firstBad [
+        fun _ => if compiled then .ok else .prop "the rendered source does not compile",
+        fun _ => firstBad ((results.zipIdx).map fun ((ok, cap), i) => fun _ =>
+          if !ok then .prop s!"from_str fails on source document {i}"
+          else if !cap then .prop s!"document {i}: an attribute value or text content is missing from the deserialized value"
+          else .ok),
+        fun _ => if mCompiles == compiled then .ok else .corr s!"compile: model={mCompiles} rustc={compiled}",
+        fun _ => match schemaOfProgram prog with
+          | none => .corr "model cannot resolve the field types"
+          | some ps => firstBad (((doms.zip results).zipIdx).map fun ((d, (ok, _)), i) => fun _ =>
+              if admits ps d == ok then .ok else .corr s!"acceptance of document {i}: model={admits ps d} deserializer={ok}") ])
 
 end Xsg.Driver
